@@ -2,7 +2,7 @@
 from terms import g_json, g_Z, g_nat, g_list, g_str, g_optZ, g_name, label_tree, g_pred
 from qcase import gen_doc, gen_user, KEYS
 
-RAW = ['a', 'b', 'k', 'x_y', 'a_b_c', 'zz', 'c']
+RAW = ['a', 'b', 'k', 'x_y', 'a_b_c', 'zz', 'c', 'k_', 'class_', '_k', 'a__b']
 
 
 def g_bstep(s, table):
@@ -62,7 +62,7 @@ def gen_bstep(rng, doc_keys):
     if k == 'item':
         # item keys are never rewritten: also not the words of the builder's own vocabulary (C15-m3)
         return ('item', rng.choice(doc_keys + ['x-y', 'x_y', 'a-b-c', 'a_b_c', 'wildcard', 'generic_wildcard', 'wc', 'gwc',
-                                               'rec', 'recursive', 'parent', 'a.b', 'k.x-y', 'a[0]']))
+                                               'rec', 'recursive', 'parent', 'a.b', 'k.x-y', 'a[0]', 'k_', 'class_', 'class', 'k-', '_k', 'a__b', 'a--b']))
     if k == 'idx':
         return ('idx', rng.choice([0, 1, -1, 2]))
     if k == 'slice':
@@ -160,7 +160,7 @@ def gen_bcase(rng, log=False):
                        keys=['a', 'b', 'k', 'x-y', 'x_y', "q'", 'zz', 'c'])
     else:
         base = gen_doc(rng, budget=rng.choice([6, 10, 16]), depth=4,
-                       keys=['a', 'b', 'k', 'x-y', 'x_y', 'a-b-c', 'a_b_c', 'zz', 'c', 'wildcard', 'generic_wildcard', 'parent', 'rec', 'a.b', 'a[0]'])
+                       keys=['a', 'b', 'k', 'x-y', 'x_y', 'a-b-c', 'a_b_c', 'zz', 'c', 'wildcard', 'generic_wildcard', 'parent', 'rec', 'a.b', 'a[0]', 'k_', 'class_', 'class', 'k-', '_k', 'a__b', 'a--b'])
     doc_keys = ['a', 'b', 'k', 'x-y', 'x_y', 'a-b-c', 'zz']
     ops = [('new', rng.random() < 0.5)]
     n = 1
